@@ -420,9 +420,14 @@ def server_main():
 # main side: pool of servers
 # --------------------------------------------------------------------------------------
 class Server:
-    def __init__(self, hashseed: int, slot: int, repo: str, no_warmup: bool = False):
+    def __init__(self, hashseed: int, slot: int, repo: str, no_warmup: bool = False, optimize: bool = False):
         env = dict(os.environ)
         env["PYTHONHASHSEED"] = str(hashseed)
+        # interpreter flags are part of a simulated process' identity: `python -O` strips every assert of the library
+        env.pop("PYTHONOPTIMIZE", None)
+        if optimize:
+            env["PYTHONOPTIMIZE"] = "1"
+        self.optimize = optimize
         env["MDSIM_REPO"] = repo
         env[GUARD] = "1"
         env.setdefault("PYTHONPYCACHEPREFIX", os.path.join(tempfile.gettempdir(), "mdsim-pycache"))
@@ -515,14 +520,15 @@ class Pool:
     """One warm interpreter per hash-seed slot, `workers` concurrent driver children spread over them.
     Jobs may pin a slot (`job["slot"]`), else any slot takes them."""
 
-    def __init__(self, hashseeds: list[int], n_servers: int | None = None, repo: str | None = None, no_warmup: bool = False):
+    def __init__(self, hashseeds: list[int], n_servers: int | None = None, repo: str | None = None, no_warmup: bool = False, optimize_slots=()):
         repo = repo or os.environ.get("MDSIM_REPO", "/repo")
         self.repo = repo
         ncpu = int(os.environ.get("MDSIM_WORKERS", "0")) or min(16, os.cpu_count() or 4)
         n = n_servers or ncpu
         n = max(n, len(hashseeds))
         self.hashseeds = list(hashseeds)
-        self.interpreters = [Server(h, i, repo, no_warmup) for i, h in enumerate(hashseeds)]
+        self.optimize_slots = {int(x) for x in (optimize_slots or ()) if int(x) < len(hashseeds)}
+        self.interpreters = [Server(h, i, repo, no_warmup, optimize=(i in self.optimize_slots)) for i, h in enumerate(hashseeds)]
         errs = []
         for s in self.interpreters:
             try:
